@@ -1122,6 +1122,22 @@ func (eng *Engine) unrollable(h *ssa.BasicBlock) bool {
 					}
 				}
 			}
+			// the same over the full slice of an array literal: the bound is len(slice) = the array's length
+			if ln, ok := cmp.Y.(*ssa.Call); ok {
+				if bi, ok := ln.Call.Value.(*ssa.Builtin); ok && bi.Name() == "len" {
+					if sl, ok := ln.Call.Args[0].(*ssa.Slice); ok {
+						if n := len(funcTableOf(sl)); n > 0 && n <= 8 {
+							for _, lb := range loopBody(h) {
+								for _, in := range lb.Instrs {
+									if tbl, idx, _, ok := tableElem(in); ok && tbl == ssa.Value(sl) && idx == cmp.X {
+										res = true
+									}
+								}
+							}
+						}
+					}
+				}
+			}
 		}
 	}
 	if eng.unroll == nil {
